@@ -354,8 +354,10 @@ def oracle_b(run: runner.Run, oc: Outcome) -> None:
     # re-authentication: one login per revocation; no new request on the old token after the new one is issued
     revokes = [e[1] for e in run.sim.trace if e[2] == 'act' and e[3] == 'revoke']
     logins = [(t, tok) for (t, actor, tok) in run.logins]
+    # a revocation is noticed only by a request that is answered with 401 (an established stream is not)
+    noticed = [t for t in revokes if any(e[2] == 'rsp' and e[4] == 401 and e[1] >= t for e in run.sim.trace)]
     if revokes:
-        if len(logins) != 1 + len(revokes):
+        if len(logins) > 1 + len(revokes) or len(logins) < 1 + len(noticed):
             oc.add('C12/reauth-count', f'{len(logins) - 1}-logins-for-{len(revokes)}-revocations',
                    f"{len(revokes)} credential revocation(s) led to {len(logins) - 1} re-authentications: {logins}")
         if len(logins) >= 2:
